@@ -20,4 +20,4 @@ INVARIANT BlankIsZero
 INVARIANT LineBreakLaw
 INVARIANT AverageLaw
 INVARIANT Export
-PROPERTY Narrowing
+INVARIANT Narrowing
